@@ -55,6 +55,7 @@ RULE_TEXT = {
     "E6": "the reducer thread never dispatches or enqueues into its own queue synchronously",
     "N4": "with a Dispatch answer and no before_dispatch veto every received action reaches the subscriber loop (or an emptiness test of the list)",
     "CB1": "the reducer thread holds neither the state lock during any user callback nor the subscriber-list lock during on_notify",
+    "RP1": "no body the reducer thread may run (including Dispatcher methods reached through dyn) unwraps the pool slot or the sender slot",
     "LK0": "every lock acquisition in the crate uses the blocking call (no try_lock/try_read/try_write)",
     "Q10": "no body running synchronously on the reducer thread constructs an Effect: a dequeued action is never re-posted by the store",
     "E8": "the store does not cap its worker pool below reducer + 2 workers (constant sizes only; the machine default is accepted)",
@@ -141,14 +142,14 @@ def _ch2_block(ctx, rep):
 
 PROPS = {
     "C01": {
-        "rules": R(r(DL.lk0_blocking_acquisitions, only=r"StoreImpl\\.(reducer-list|state-cell|sender-slot|pool-slot)|all-acquisitions|floor"), Q.q1_one_queue_one_consumer, Q.q2_dequeue_sites,
+        "rules": R(E.rp1_reducer_thread_never_unwraps_a_shutdown_slot, r(DL.lk0_blocking_acquisitions, only=r"StoreImpl\\.(reducer-list|state-cell|sender-slot|pool-slot)|all-acquisitions|floor"), Q.q1_one_queue_one_consumer, Q.q2_dequeue_sites,
                    r(Q.q6_sequential_consumer, only=r"event-graph|receive events|REDUCE"),
                    r(P.pi1_one_pass_per_action, only=r"receive events|READ_STATE|WRITE_STATE|REDUCE"),
                    r(PI3_REDUCE, name="PI3"), P.pi4_reducer_threading, P.pi5_write_back,
                    r(P.pi6_action_identity, only=r"REDUCE"), P.s1_single_writer, P.s2_initial_value,
                    T.st1_stop_is_close_plus_join, T.st3_loop_exits, r(_ch1_block, name="CH1"), r(_ch2_block, name="CH2"),
                    r(M.mw_table, only=r"flags:before_reduce:(ContinueAction|BreakChain|Err)|MW2:.*before_reduce"),
-                   S.cb1_callbacks_hold_no_reentrant_lock),
+                   S.cb1_callbacks_hold_no_reentrant_lock, E.e6_reducer_never_enqueues),
         "explanation": "Static decision on the compiler's MIR: single consumer of one queue (Q1,Q2,Q6); per received action exactly one chain pass that threads the chain variable through every registered reducer in order (PI1,PI3,PI4,PI6); only a before_reduce DoneAction keeps an action from the reducers (MW flags, MW2); the chain's result is written back unconditionally by the only writer of the state cell (PI5,S1,S2); stop() joins the consumer (ST1,ST3); the blocking arm never discards (CH1,CH2). Premises of the fold argument in DESIGN.md C01; behaviour follows from these premises plus the trusted base, nothing is executed. User callbacks never run with the state lock held, on_notify never with the list lock (CB1): a callback that reads the state or (un)subscribes cannot stop the thread that reduces.",
         "not_decided": ["FIFO/no-loss of crossbeam recv (trusted)"],
     },
@@ -163,7 +164,7 @@ PROPS = {
         "not_decided": ["linearizability / FIFO of the bounded channel (trusted)"],
     },
     "C03": {
-        "rules": R(r(DL.lk0_blocking_acquisitions, only=r"StoreImpl\\.(subscriber-list|middleware-list)|all-acquisitions|floor"), S.su5_release_only_on_reducer_thread, r(P.pi1_one_pass_per_action, only=r"receive events|single-loop:NOTIFY"),
+        "rules": R(E.rp1_reducer_thread_never_unwraps_a_shutdown_slot, r(DL.lk0_blocking_acquisitions, only=r"StoreImpl\\.(subscriber-list|middleware-list)|all-acquisitions|floor"), S.su5_release_only_on_reducer_thread, r(P.pi1_one_pass_per_action, only=r"receive events|single-loop:NOTIFY"),
                    r(P.pi6_action_identity, only=r"NOTIFY"),
                    r(S.su1_mutators, drop=r"removal:clear|floor:clear"), P.n1_flag, P.n2_guard, P.n3_payload,
                    r(M.mw_table, only=r"(flow|flags):before_dispatch|arm-present:before_dispatch|MW2:.*before_dispatch|count:before_dispatch"),
@@ -175,7 +176,7 @@ PROPS = {
         "not_decided": ["chains mixing Dispatch and Keep beyond 'last decides'"],
     },
     "C04": {
-        "rules": R(r(DL.lk0_blocking_acquisitions, only=r"StoreImpl\\.(sender-slot|pool-slot|subscriber-list)|ChanneledWrapper|all-acquisitions|floor"), Q.q3_enqueue_under_sender_lock, Q.q4_close,
+        "rules": R(E.rp1_reducer_thread_never_unwraps_a_shutdown_slot, r(DL.lk0_blocking_acquisitions, only=r"StoreImpl\\.(sender-slot|pool-slot|subscriber-list)|ChanneledWrapper|all-acquisitions|floor"), Q.q3_enqueue_under_sender_lock, Q.q4_close,
                    r(C.ch2_result_tells_enqueued, only=r"err-means-not-enqueued|ok-means-enqueued:BlockOnFull|floor"), r(_ch1_block, name="CH1"),
                    S.su3_shutdown_release, T.st1_stop_is_close_plus_join, T.st2_closed_means_err, T.st3_loop_exits,
                    T.st4_callbacks_live_in_the_loop, T.st5_idempotent, r(C.dr1_result_mapping, only=r"result-maps-Ok|result-ignored|floor"),
@@ -187,7 +188,7 @@ PROPS = {
         "rules": R(r(DL.lk0_blocking_acquisitions, only=r"StoreImpl\\.sender-slot|all-acquisitions|floor"), r(_ch1_block, name="CH1"), r(_ch2_block, name="CH2"), C.ch5_capacity, Q.q2_dequeue_sites,
                    B.b1_capacity_zero_rejected, Q.q5_synchronous_enqueue, Q.q9_dispatch_fails_only_when_closed,
                    Q.q3_enqueue_under_sender_lock,
-                   r(DL.l2_wait_for, only=r"consumer-needs:.*held=StoreImpl\.sender-slot|floor")),
+                   r(DL.l2_wait_for, only=r"consumer-needs:.*held=StoreImpl\.sender-slot|floor"), S.cb1_callbacks_hold_no_reentrant_lock),
         "explanation": "Static decision: the dispatch queue is bounded(capacity) with the configured value unmodified (CH5) and >= 1 (B1); the BlockOnFull arm consists of exactly one unbounded blocking send (CH1,CH2) executed synchronously by the caller (Q5); nothing but the consumer removes items (Q2). Waiting/wake-up timing is crossbeam's (trusted). Producers enqueue under the sender lock (Q3) and the reducer thread never needs that lock (L2 on the sender slot).",
         "not_decided": ["'resumes as soon as' / eventual progress (liveness of crossbeam)", "the capacity bound itself is crossbeam's guarantee"],
     },
@@ -195,7 +196,7 @@ PROPS = {
         "rules": R(r(_ch1_drop, name="CH1"), C.ch0_never_disconnected, C.ch2_result_tells_enqueued, C.ch3_drop_accounting, C.ch4_retry_identity,
                    r(Q.q3_enqueue_under_sender_lock, drop=r":StoreImpl::close$"), r(C.dr1_result_mapping, only=r"result-maps-Err|result-ignored|floor"),
                    r(ME.me7_monotone, only=r"action_dropped"), r(C.ch5_capacity, only=r"capacity-(unmodified|modified|passed-through|from-field):|only-bounded|count:|floor"),
-                   r(B.bu1_write_sets, only=r":policy$|floor"), r(B.bu3_pass_through, only=r"policy|floor")),
+                   r(B.bu1_write_sets, only=r":policy$|floor"), r(B.bu3_pass_through, only=r"policy|floor"), C.ch6_immutable_config),
         "explanation": "Static decision by exhaustive path enumeration of the send wrapper: drop arms contain only non-blocking queue operations (CH1); Ok iff enqueued (CH2); each popped/rejected action is counted by exactly one action_dropped call (CH3; the counter is one fetch_add, ME7); DropOldest pops the head only on Full and re-sends the bounced item (CH4) with producers serialised by the sender lock (Q3); Dispatcher::dispatch maps Err to Err (DR1). The queue has the configured capacity (CH5), the configured policy reaches it (BU1,BU3), the DropLatest arm removes nothing from the queue (CH1).",
         "not_decided": ["which action a concurrent consumer makes the victim (left open by the statement)"],
         "exhaustive": True,
@@ -228,13 +229,13 @@ PROPS = {
     "C10": {
         "rules": R(r(DL.lk0_blocking_acquisitions, only=r"ChanneledWrapper|StoreImpl\\.subscriber-list|all-acquisitions|floor"), X.ch_channeled, C.ch1_arm_purity, C.ch2_result_tells_enqueued, C.ch4_retry_identity,
                    r(T.st4_callbacks_live_in_the_loop, only=r"channeled|floor"),
-                   S.lc3_release_under_list_lock, T.st1_stop_is_close_plus_join,
+                   S.lc3_release_under_list_lock, T.st1_stop_is_close_plus_join, r(S.cb1_callbacks_hold_no_reentrant_lock, only=r"no-list-lock-in-on_notify|floor"),
                    r(S.su3_shutdown_release, only=r"every-exit-releases|floor:clear")),
         "explanation": "Static decision: the user's subscriber lives only in the spawned thread's delivery loop (R1,R4,ST4); the forwarder enqueues each notification once, unmodified, under its slot lock and never after release (R3); the channel wrapper never blocks under a drop policy and delivers the newest under DropOldest (CH1,CH2,CH4); release drops the sender, enqueues nothing, then joins - reached atomically with removal from unsubscribe and from the shutdown release (R2,SU2,SU3); defaults are DEFAULT_CAPACITY/BlockOnFull (R5). stop() closes and joins on every path (ST1).",
         "not_decided": ["run-time thread identity", "timing"],
     },
     "C11": {
-        "rules": R(r(DL.lk0_blocking_acquisitions, only=r"StoreImpl\\.(pool-slot|sender-slot)|all-acquisitions|floor"), Q.d1_same_store_dispatcher, T.st1_stop_is_close_plus_join, E.e1_collect, E.e2_drain, E.e3_never_inline, E.e4_effect_action,
+        "rules": R(E.rp1_reducer_thread_never_unwraps_a_shutdown_slot, r(DL.lk0_blocking_acquisitions, only=r"StoreImpl\\.(pool-slot|sender-slot)|all-acquisitions|floor"), Q.d1_same_store_dispatcher, T.st1_stop_is_close_plus_join, E.e1_collect, E.e2_drain, E.e3_never_inline, E.e4_effect_action,
                    E.e5_total_handover, E.e6_reducer_never_enqueues, E.e7_vector_untouched_between_hooks_and_drain, E.e8_pool_not_capped,
                    Q.q9_dispatch_fails_only_when_closed, r(_ch1_block, name="CH1"),
                    r(M.mw_table, only=r"store-leaves-effects-alone|count:before_effect")),
